@@ -580,3 +580,205 @@ def p3(h, st):
     r = s.check()
     h.check("counts' == CN' at an arbitrary name", r == z3.unsat, detail=str(r))
     h.done()
+
+
+# ---------------------------------------------------------------------------------------------------------------------
+# P4-P7  MODULAR contracts for gate lists of ANY length: constructor, copy, +, *  (ghost sequences, loop cut, callee contracts as stubs)
+#
+# The chain:  P2 (add_gate preserves WF on any circuit, exception-safe)  +  P4 (Circuit(gates, n) is fold(add_gate) from the well-formed empty circuit)
+#             => every constructed circuit is WF, for any gate list.   P5-P7 (copy / + / *) hand the constructor exactly copy(gates) / a ++ b / gates * k
+#             and the stated width  => their results are WF and their gate lists are the specified sequences, operands untouched.
+
+from tverif.engine import Opaque, stub
+from tverif.interp import GSeq, GhostIterable
+
+
+def _blank_circuit(**fields):
+    from tangelo.linq import Circuit
+    c = Circuit.__new__(Circuit)
+    c.__dict__ = dict(fields)
+    return c
+
+
+class _InitLoop(GhostIterable):
+    """invariant protocol of the constructor's loop over `gates`"""
+
+    def __init__(self, h, n, calls):
+        self.h, self.n, self.calls = h, n, calls
+
+    def init(self, interp, env):
+        h, me = self.h, env.lookup("self")
+        d = me.__dict__
+        h.check("before the first gate: empty gate list and variational list (fresh objects)", d["_gates"] == [] and d["_variational_gates"] == [] and d["_gates"] is not d["_variational_gates"])
+        h.check("before the first gate: empty counts and arity counts (fresh objects)", d["_gate_counts"] == {} and d["_n_qubit_gate_counts"] == {} and d["_gate_counts"] is not d["_n_qubit_gate_counts"])
+        h.check("before the first gate: index set is range(n_qubits) (empty when no width is fixed)", d["_qubit_indices"] == (set(range(self.n)) if self.n else set()))
+        h.check("before the first gate: fixed width recorded", d["_qubits_simulated"] == self.n)
+        h.check("before the first gate: no add_gate call yet", self.calls == [])
+        self.state = snapshot({k: v for k, v in d.items()})
+        self.me = me
+
+    def step(self, interp, env, broke):
+        h = self.h
+        h.check("one add_gate call per element, on this circuit, with the element itself", len(self.calls) == 1 and self.calls[0][0][0] is self.me
+                and self.calls[0][0][1] is self.elem and not self.calls[0][1])
+        h.check("the loop body changes the circuit only through add_gate", snapshot(dict(self.me.__dict__)) == self.state)
+
+
+@contract("C11", "P4.Circuit.__init__.any_gate_list", targets=[(C, "Circuit.__init__")], level="P", structures=lambda tier: [{"n": n} for n in (None, 0, 1, 5)])
+def p4(h, st):
+    """for a gate list of ANY length (ghost sequence): the constructor first establishes the well-formed empty circuit of the requested width (fresh empty containers,
+    index set range(n_qubits)), then calls add_gate exactly once per element, in order, with the element itself, and changes the circuit in no other way; an empty or
+    absent list adds nothing. With P2 (add_gate preserves the representation invariant on ANY circuit) this gives WF for every constructed circuit, by induction"""
+    if not h.symbolic:
+        h.check("native: covered by O2", True)
+        h.done()
+        return
+    from tangelo.linq import Circuit
+    calls = []
+    stub(h, C, "Circuit.add_gate", lambda a, k: None, log=calls)
+    proto = _InitLoop(h, st["n"], calls)
+    elem = Opaque("generic gate of the list")
+    proto.elem = elem
+    gates = GSeq.atom("gates", elem, proto=proto)
+    c = Circuit.__new__(Circuit)
+    ctrl = {"k": "v"}
+    h.call(C, "Circuit.__init__", c, gates, st["n"], "nm", ctrl)
+    d = c.__dict__
+    h.check("name and classical control stored", d["name"] == "nm" and d["_cmeasure_control"] is ctrl)
+    h.check("the gate list argument is not stored in the circuit", all(v is not gates for v in d.values()))
+    if gates.iterations == 0:
+        h.check("empty list: no add_gate call, well-formed empty circuit", calls == [] and d["_gates"] == [] and d["_gate_counts"] == {})
+    else:
+        h.check("non-empty list: the loop ran on the generic element", gates.iterations == 1 and len(calls) == 1)
+    # absent list
+    c2 = Circuit.__new__(Circuit)
+    calls.clear()
+    h.call(C, "Circuit.__init__", c2, None, st["n"])
+    h.check("absent list: no add_gate call", calls == [] and c2.__dict__["_gates"] == [] and c2.__dict__["_qubit_indices"] == (set(range(st["n"])) if st["n"] else set()))
+    h.done()
+
+
+def _record_init(h, log):
+    stub(h, C, "Circuit.__init__", lambda a, k: None, log=log)
+
+
+def _init_args(call):
+    """(gates, n_qubits, name, cmeasure_control) of a recorded constructor call, defaults filled in; '<absent>' marks an argument not passed"""
+    args, kw = call
+    names = ["gates", "n_qubits", "name", "cmeasure_control"]
+    out = {n: "<absent>" for n in names}
+    for n, v in zip(names, args[1:]):
+        out[n] = v
+    for k, v in kw.items():
+        out[k] = v
+    return out
+
+
+@contract("C11", "P5.Circuit.copy.any_length", targets=[(C, "Circuit.copy")], level="P", structures=lambda tier: [{"fixed": f} for f in (None, "sym")])
+def p5(h, st):
+    """for a circuit of ANY length: copy() returns a circuit constructed (P4) from a DEEP COPY of the gate sequence with the same fixed width and name and a deep copy of
+    the classical control; the source circuit's fields are untouched"""
+    if not h.symbolic:
+        h.check("native: covered by O3 / C09.O10", True)
+        h.done()
+        return
+    log = []
+    _record_init(h, log)
+    N = h.integer("N") if st["fixed"] else None
+    seq = GSeq.atom("self._gates", Opaque("generic gate"))
+    ctrl = {"1": [1, 2]}
+    c = _blank_circuit(_gates=seq, _qubits_simulated=N, name="nm", _cmeasure_control=ctrl)
+    before = dict(c.__dict__)
+    out = h.call(C, "Circuit.copy", c)
+    from tangelo.linq import Circuit
+    h.check("a new Circuit object is returned", type(out) is Circuit and out is not c)
+    h.check("exactly one constructor call", len(log) == 1)
+    a = _init_args(log[0])
+    # the constructor copies every gate field-wise (P2), so handing it the gate sequence itself would be just as consistent: both forms are accepted
+    h.check("constructed from (a deep copy of) self._gates", isinstance(a["gates"], GSeq) and a["gates"].describe() in (("copy", ("atom", "self._gates")), ("atom", "self._gates")))
+    h.check("same fixed width", a["n_qubits"] is N)
+    h.check("same name", a["name"] == "nm")
+    h.check("classical control deep-copied", a["cmeasure_control"] == ctrl and a["cmeasure_control"] is not ctrl and a["cmeasure_control"]["1"] is not ctrl["1"])
+    h.check("source circuit untouched", all(c.__dict__[k] is v for k, v in before.items()) and len(c.__dict__) == len(before) and ctrl == {"1": [1, 2]})
+    h.done()
+
+
+@contract("C11", "P6.Circuit.__add__.any_length", targets=[(C, "Circuit.__add__")], level="P",
+          structures=lambda tier: [{"fa": a, "fb": b} for a in (None, "sym") for b in (None, "sym")])
+def p6(h, st):
+    """for circuits a, b of ANY lengths: a + b is constructed (P4) from the concatenation a._gates ++ b._gates (the constructor copies every gate: P2), with fixed width
+    max(a.width, b.width) when either operand has a (non-zero) fixed width and no fixed width otherwise; neither operand is touched"""
+    if not h.symbolic:
+        h.check("native: covered by O3 / C09.O10", True)
+        h.done()
+        return
+    log = []
+    _record_init(h, log)
+    Na = h.integer("Na") if st["fa"] else None
+    Nb = h.integer("Nb") if st["fb"] else None
+    for N in (Na, Nb):
+        if N is not None:
+            h.assume(N >= 0)
+    wa, wb = h.integer("wa"), h.integer("wb")
+    h.assume(wa >= 0)
+    h.assume(wb >= 0)
+    a = _blank_circuit(_gates=GSeq.atom("a._gates", Opaque("generic gate of a")), _qubits_simulated=Na)
+    b = _blank_circuit(_gates=GSeq.atom("b._gates", Opaque("generic gate of b")), _qubits_simulated=Nb)
+    stub(h, C, "Circuit.width", lambda args, k: wa if args[0] is a else wb)
+    before = (dict(a.__dict__), dict(b.__dict__))
+    out = h.call(C, "Circuit.__add__", a, b)
+    h.check("exactly one constructor call", len(log) == 1)
+    g = _init_args(log[0])
+    h.check("constructed from a._gates ++ b._gates", isinstance(g["gates"], GSeq) and g["gates"].describe() == ("concat", ("atom", "a._gates"), ("atom", "b._gates")))
+    fixed_a = (Na != 0) if Na is not None else False
+    fixed_b = (Nb != 0) if Nb is not None else False
+    n = g["n_qubits"]
+    if n is None:
+        h.check("no fixed width only if neither operand has one", ~(fixed_a | fixed_b) if not (isinstance(fixed_a, bool) and isinstance(fixed_b, bool)) else not (fixed_a or fixed_b))
+    else:
+        h.check("a fixed width only if an operand has one", (fixed_a | fixed_b) if not (isinstance(fixed_a, bool) and isinstance(fixed_b, bool)) else (fixed_a or fixed_b))
+        h.check("fixed width == max(a.width, b.width)", (n >= wa) & (n >= wb) & ((n == wa) | (n == wb)))
+    h.check("operands untouched", all(a.__dict__[k] is v for k, v in before[0].items()) and all(b.__dict__[k] is v for k, v in before[1].items()))
+    h.done()
+
+
+@contract("C11", "P7.Circuit.__mul__.any_length", targets=[(C, "Circuit.__mul__"), (C, "Circuit.__rmul__")], level="P",
+          structures=lambda tier: [{"fixed": f, "side": s} for f in (None, "sym") for s in ("mul", "rmul")] + [{"bad": v} for v in ("2.0", "'2'", "None", "True")])
+def p7(h, st):
+    """for a circuit of ANY length and EVERY integer k: c * k (and k * c) raises ValueError iff k <= 0 and otherwise is constructed (P4) from the gate sequence repeated k
+    times with the circuit's own fixed width; non-integer factors raise ValueError; the operand is untouched"""
+    if not h.symbolic:
+        h.check("native: covered by O3 / C09.O10", True)
+        h.done()
+        return
+    log = []
+    _record_init(h, log)
+    seq = GSeq.atom("self._gates", Opaque("generic gate"))
+    if "bad" in st:
+        c = _blank_circuit(_gates=seq, _qubits_simulated=None)
+        v = eval(st["bad"])
+        e = h.raises(lambda: h.call(C, "Circuit.__mul__", c, v), ValueError)
+        if st["bad"] == "True":
+            # bool is an int in Python: accepted as 1 repetition
+            h.check("True counts as the integer 1", e is None and len(log) == 1)
+        else:
+            h.check("non-integer factor refused", e is not None and log == [])
+        h.done()
+        return
+    N = h.integer("N") if st["fixed"] else None
+    k = h.integer("k")
+    c = _blank_circuit(_gates=seq, _qubits_simulated=N)
+    before = dict(c.__dict__)
+    e = h.raises(lambda: h.call(C, "Circuit.__mul__" if st["side"] == "mul" else "Circuit.__rmul__", c, k), ValueError)
+    if e is not None:
+        h.check("refused only for k <= 0", k <= 0)
+        h.check("nothing constructed", log == [])
+    else:
+        h.check("accepted only for k > 0", k > 0)
+        h.check("exactly one constructor call", len(log) == 1)
+        g = _init_args(log[0])
+        h.check("constructed from self._gates * k", isinstance(g["gates"], GSeq) and g["gates"].describe() == ("repeat", ("atom", "self._gates")))
+        h.check_close("repetition count is k", g["gates"].n, k)
+        h.check("own fixed width", g["n_qubits"] is N)
+    h.check("operand untouched", all(c.__dict__[f] is v for f, v in before.items()))
+    h.done()
